@@ -175,7 +175,7 @@ def canon(v, depth=0):
     import pathlib
     if isinstance(v, pathlib.PurePath):
         return ['path', str(v)]
-    tag = getattr(v, '_tag', None)
+    tag = getattr(v, '__dict__', {}).get('_tag') if isinstance(getattr(v, '__dict__', None), dict) else None
     if tag is not None:
         return '<%s %s>' % (type(v).__name__, tag)
     return '<%s>' % type(v).__name__
